@@ -46,6 +46,8 @@ def gen_cases(rng, tier):
     m = spec.gen_pair_model(rng, groute, target="GULP", reg0=True, nr_choices=[2, 3, 5, 8, 21, 50, 101, 200])
     if groute == "api" and i % 3 == 0:
       m["api_variant"] = "energy_override"
+    if groute == "api" and i % 3 != 0 and i % 4:
+      m["api_results"] = [None, "numpy0d", "numpy0d_int", "numpy0d_cached"][i % 4]
     cases.append({"kind": "gulp", "route": route, "model": m, "style": rng.randrange(1 << 30)})
   for i in range(n):
     route = rng.choice(["api_class", "potable", "potable", "cli" if i % 10 == 0 else "potable"])
@@ -53,6 +55,8 @@ def gen_cases(rng, tier):
     m = spec.gen_eam_model(rng, "adp", groute, target="eam_adp")
     if groute == "api":
       m["api_containers"] = rng.choice([None, None, "tuple", "generator", "map", "amend_after_write"])
+    if groute == "api" and i % 4:
+      m["api_results"] = [None, "numpy0d", "numpy0d_int", "numpy0d_cached"][i % 4]
     cases.append({"kind": "adp", "route": route, "model": m, "style": rng.randrange(1 << 30)})
   for i in range(n):
     m = spec.gen_eam_model(rng, "eam", "api", nspecies=1, target="setfl", underspecified=0)
@@ -63,6 +67,8 @@ def gen_cases(rng, tier):
                       {"k": "form", "name": "exp_spline", "p": [spec.rfloat(rng, -1, 1), spec.rfloat(rng, -0.5, 0.1), 0.0, 0.0, 0.0, 0.0, spec.rfloat(rng, 0.0, 2.0)]},
                       {"k": "sum", "a": [{"k": "form", "name": "constant", "p": [spec.rfloat(rng, 0.0, 2.0)]}, {"k": "form", "name": "morse", "p": [1.2, 2.0, -spec.rfloat(rng, 0.1, 2.0)]}]}])
     m["pair"] = [[sp_, sp_, phi]]
+    if i % 4:
+      m["api_results"] = [None, "numpy0d", "numpy0d_int", "numpy0d_cached"][i % 4]
     cases.append({"kind": "funcfl", "route": "api_legacy", "model": m, "style": rng.randrange(1 << 30), "title": "title %d" % i})
   for i in range(n):
     kind = ["pair", "eam", "fs"][i % 3]
@@ -77,8 +83,8 @@ def gen_cases(rng, tier):
                              grids={"nr": rng.choice([2, 3, 5, 9, 21, 60]), "nrho": rng.choice([2, 3, 5, 9, 30])})
       if groute == "api":
         m["api_containers"] = rng.choice([None, None, "tuple", "generator", "map", "amend_after_write"])
-    if groute == "api" and i % 4 == 1:
-      m["api_results"] = "numpy0d"
+    if groute == "api" and i % 4:
+      m["api_results"] = [None, "numpy0d", "numpy0d_int", "numpy0d_cached"][i % 4]
     cases.append({"kind": "excel", "route": route, "model": m, "style": rng.randrange(1 << 30)})
   # look-alike labels, deterministically: 'Ce-O' next to 'Ce+-O' ('+' collates before '-'): the order of the species
   # tuples and the order of the 'A-B' strings differ, so a column filled in one order and headed in the other shows
@@ -458,4 +464,7 @@ def run_case(case, ctx):
   if case["model"].get("api_containers"):
     ctx.cls("api_containers:" + case["model"]["api_containers"])
   rng = random.Random(case["style"])
-  return {"gulp": run_gulp, "adp": run_adp, "funcfl": run_funcfl, "excel": run_excel}[case["kind"]](case, ctx, rng)
+  del routes.NUMPY0D_CACHED[:]
+  res = {"gulp": run_gulp, "adp": run_adp, "funcfl": run_funcfl, "excel": run_excel}[case["kind"]](case, ctx, rng)
+  routes.numpy0d_mutations(ctx)
+  return res
